@@ -91,9 +91,11 @@ USERDICT_VIA_SETITEM = {"update", "setdefault", "__init__", "copy"}
 def load_definitions(repo):
     cache = {}
 
+    registry = set(KNOWN_FEATS)     # the (mutable) feature registry
+
     def feat_stub():
         def scalar_feature_exists(name):
-            return isinstance(name, str) and name in KNOWN_FEATS
+            return isinstance(name, str) and name in registry
 
         def get_feature_label(name, rtdc_ds=None, with_unit=True):
             return f"label({name})"
@@ -110,6 +112,12 @@ def load_definitions(repo):
                 val = NP
             elif mod == "copy":
                 val = Namespace("copy", deepcopy=_copy.deepcopy)
+            elif mod == "functools":
+                import functools
+                val = Namespace("functools", lru_cache=functools.lru_cache,
+                                cache=functools.cache,
+                                wraps=functools.wraps,
+                                partial=functools.partial)
             else:
                 raise AnalysisError(f"model: import of {mod}")
             return val if name is None else getattr(val, name)
@@ -137,6 +145,7 @@ def load_definitions(repo):
     mp = get_module("meta_parse")
     mc = get_module("meta_const")
     ml = get_module("meta_logic")
+    ml.__dict__["_registry"] = registry
     return mp, mc, ml
 
 
@@ -838,6 +847,54 @@ def r112(ctx, repo, mp, mc, ml, setitem):
                    "agree" if not problems else
                    f"[online_filter] '{key}': " + "; ".join(problems),
                    node=fnode, key=f"{ML}::online_filter::{key}")
+    # the key predicates follow the feature registry (plugin / temporary
+    # features are registered and removed at run time): no memo of results
+    reg = ml.__dict__["_registry"]
+    enode = repo.func(ML, "config_key_exists")
+    for fname in ("config_key_exists",):
+        fn = getattr(ml, fname)
+        for sec, key, feat in (
+                ("online_filter", "newfeat min", "newfeat"),
+                ("online_filter", "newfeat soft limit", "newfeat"),
+                ("online_filter", "area_um,newfeat polygon points",
+                 "newfeat")):
+            try:
+                reg.discard(feat)
+                before = bool(fn(sec, key))
+                reg.add(feat)
+                during = bool(fn(sec, key))
+                reg.discard(feat)
+                after = bool(fn(sec, key))
+                err = None
+            except ModelRaise as e:
+                err = e.name
+            finally:
+                reg.discard(feat)
+            ok = err is None and (before, during, after) == (
+                False, True, False)
+            ctx.ob("R11.2", ok,
+                   f"{fname}('{sec}', '{key}') follows the registration "
+                   f"and removal of the feature '{feat}'" if ok else
+                   f"{fname}('{sec}', '{key}') "
+                   + (f"raises {err}" if err else
+                      f"answers {before}/{during}/{after} before / while / "
+                      f"after the feature '{feat}' is registered, expected "
+                      "False/True/False: a result is remembered beyond a "
+                      "change of the feature registry"), node=enode,
+                   key=f"{ML}::{fname}::follows the feature registry "
+                   f"({key})")
+    for fname in ("get_config_value_func", "get_config_value_type"):
+        fn = getattr(ml, fname)
+        a1 = fn("online_filter", "area_um soft limit")
+        b1 = fn("online_filter", "area_um polygon points")
+        a2 = fn("online_filter", "area_um soft limit")
+        ok = conv_name(a1) == conv_name(a2) and a1 == a2 and (
+            a1 != b1 or fname.endswith("type") and a1 != b1)
+        ctx.ob("R11.2", ok, f"{fname} answers per key, repeatably" if ok
+               else f"{fname} answers differently on repetition / the same "
+               "for different pattern keys", node=repo.func(ML, fname),
+               key=f"{ML}::{fname}::repeatable", nontrivial=False)
+
     # user section: no conversion, no type
     conv = ml.get_config_value_func("user", "anything")
     typ = ml.get_config_value_type("user", "anything")
@@ -1294,7 +1351,8 @@ def r111(ctx, repo):
         bad = []
         src = repo.src(rel)
         low = src.lower()
-        if not ("_cfg" in src or "__setitem__" in src or (
+        if not ("_cfg" in src or "__setitem__" in src
+                or "ConfigurationDict" in src or (
                 ".data" in src and ("config" in low or "cfg" in low))):
             continue    # cannot contain any of the three shapes below
         n_parsed += 1
@@ -1305,6 +1363,9 @@ def r111(ctx, repo):
             elif isinstance(n, ast.Attribute) and n.attr == "data" and (
                     "config" in txt(n.value).lower()
                     or "cfg" in txt(n.value).lower()):
+                bad.append(n)
+            elif isinstance(n, ast.Attribute) and n.attr == "data" \
+                    and _bound_to_configdict(n):
                 bad.append(n)
             elif isinstance(n, ast.Call) and isinstance(
                     n.func, ast.Attribute) and n.func.attr == "__setitem__" \
@@ -1324,6 +1385,26 @@ def r111(ctx, repo):
            "no raw configuration access", nontrivial=False)
     ctx.stat("R11.1 modules scanned", n_files)
     ctx.stat("R11.1 modules parsed after the textual pre-filter", n_parsed)
+
+
+def _bound_to_configdict(attr):
+    """`<x>.data` where <x> (same text) is assigned, in the same function,
+    from an expression that creates / reads a ConfigurationDict"""
+    f = attr
+    while f is not None and not isinstance(
+            f, (ast.FunctionDef, ast.AsyncFunctionDef, ast.Module)):
+        f = getattr(f, "parent", None)
+    if f is None:
+        return False
+    base = txt(attr.value)
+    for n in ast.walk(f):
+        if isinstance(n, ast.Assign) and any(txt(t) == base
+                                             for t in n.targets):
+            v = txt(n.value)
+            if "ConfigurationDict(" in v or ".config[" in v \
+                    or v.endswith(".config") or "Configuration(" in v:
+                return True
+    return False
 
 
 def _section_expr_ok(e, sec_txt):
@@ -1513,6 +1594,36 @@ def r114(ctx, repo, setitem, mc, ml):
     ctx.ob("R11.4", ok, "the caller's mapping is left untouched" if ok else
            "store_metadata modifies the caller's metadata in place",
            node=sm, label="works on a copy", nontrivial=False)
+    # the same when the caller hands over section-aware dictionaries (what
+    # export does): nothing about the container exempts a value from the
+    # converter
+    class SecDict(dict):
+        def __init__(self, section, *a):
+            super().__init__(*a)
+            self.section = section
+
+        def __deepcopy__(self, memo):
+            return SecDict(self.section, self)
+
+        def copy(self):
+            return SecDict(self.section, self)
+    meta2 = {"setup": SecDict("setup", {"channel width": "20"}),
+             "imaging": SecDict("imaging", {"pixel size": "0.34"}),
+             "user": SecDict("user", {"k": 1})}
+    attrs2, err2 = store(meta2)
+    bad2 = []
+    if err2:
+        bad2.append(f"raises {err2}")
+    for name in ("setup:channel width", "imaging:pixel size"):
+        got = attrs2.get(name)
+        if not err2 and not (isinstance(got, _Conv) and f"{got.sec}:"
+                             f"{got.key}" == name):
+            bad2.append(f"'{name}' of a section-aware dictionary is written "
+                        f"as {got!r} without the converter")
+    ctx.ob("R11.4", not bad2, "values of section-aware dictionaries are "
+           "converted like those of plain dicts" if not bad2 else
+           "store_metadata: " + bad2[0], node=sm,
+           label="converter on write (section-aware dict)")
     for label, lab2, m2 in (
             ("section guard", "sections outside CFG_METADATA (other than "
              "user)", {"filtering": {"enable filters": True}}),
@@ -1677,11 +1788,41 @@ def r114(ctx, repo, setitem, mc, ml):
     ana_secs = list(mc.CFG_ANALYSIS)
     present = [x for x in meta_secs if x != "imaging"][:4] + ["experiment"]
     interp = Interp()
+    raw_writes = []
+
+    class ModelCD(dict):
+        """ConfigurationDict stand-in: `.data` is the unvalidated store"""
+
+        def __init__(self, section=None, *a, **k):
+            super().__init__(*a, **k)
+            self.section = section
+            outer = self
+
+            class Raw:
+                model_object = True
+
+                def update(self, *a2, **k2):
+                    raw_writes.append("update")
+                    dict.update(outer, *a2, **k2)
+
+                def model_setitem(self, kk, vv):
+                    raw_writes.append(kk)
+                    dict.__setitem__(outer, kk, vv)
+
+                def setdefault(self, kk, vv=None):
+                    raw_writes.append(kk)
+                    return dict.setdefault(outer, kk, vv)
+            self.data = Raw()
+
+        def copy(self):
+            return ModelCD(self.section, self)
     for filtered in (False, True):
-        config = {sec: {"some key": 1.0} for sec in dict.fromkeys(present)}
-        config["user"] = {"my key": "x"}
+        del raw_writes[:]
+        config = {sec: ModelCD(sec, {"some key": 1.0})
+                  for sec in dict.fromkeys(present)}
+        config["user"] = ModelCD("user", {"my key": "x"})
         for sec in ana_secs:
-            config[sec] = {"k": 1}
+            config[sec] = ModelCD(sec, {"k": 1})
         ds = Namespace("ds", config=config,
                        get_measurement_identifier=lambda: "mid",
                        features_innate=[], features=[],
@@ -1691,7 +1832,9 @@ def r114(ctx, repo, setitem, mc, ml):
         g = {"dfn": Namespace("dfn", CFG_METADATA=mc.CFG_METADATA,
                               CFG_ANALYSIS=mc.CFG_ANALYSIS,
                               config_keys=mc.config_keys),
-             "uuid": Namespace("uuid", uuid4=lambda: "0123-4567")}
+             "uuid": Namespace("uuid", uuid4=lambda: "0123-4567"),
+             "ConfigurationDict": ModelCD, "copy": Namespace(
+                 "copy", deepcopy=_copy.deepcopy, copy=_copy.copy)}
         how = "filtered" if filtered else "unfiltered"
         problems = []
         try:
@@ -1720,6 +1863,10 @@ def r114(ctx, repo, setitem, mc, ml):
                             "(later edits change the dataset's own "
                             "configuration)")
                         break
+                if raw_writes:
+                    problems.append(
+                        "writes the `.data` of a ConfigurationDict directly "
+                        "(values by-pass the converting __setitem__)")
                 if filtered and config["experiment"] != {"some key": 1.0}:
                     problems.append("the filtered export edits the "
                                     "dataset's own [experiment] section")
@@ -1819,6 +1966,116 @@ def r114_rectify(ctx, repo):
                key=f"{WR}::RTDCWriter.rectify_metadata::{label}")
 
 
+HIER = "dclab/rtdc_dataset/fmt_hierarchy/base.py"
+TEXT_FORMS = ("as_dict", "tojson", "tostring")
+
+
+def r114_copies(ctx, repo):
+    """a child / copy of a Configuration keeps the value types: it is made
+    with a type-preserving copy, never through a text / JSON form"""
+    import json
+    # (1) RTDC_Hierarchy._create_config interpreted on a model parent
+    cc = repo.func(HIER, "RTDC_Hierarchy._create_config")
+    interp = Interp()
+    seen = []
+
+    def to_plain(d):
+        return json.loads(json.dumps(d, default=lambda o: list(o)))
+
+    class ParentCfg(dict):
+        def copy(self):
+            return ParentCfg(_copy.deepcopy(dict(self)))
+
+        def as_dict(self, pop_filtering=False):
+            return to_plain(dict(self))
+
+        def tojson(self):
+            return json.dumps(dict(self), default=lambda o: list(o))
+
+        def tostring(self, sections=None):
+            return str(dict(self))
+
+    def configuration(files=None, cfg=None, disable_checks=False):
+        seen.append(cfg)
+        return Namespace("Configuration", cfg=cfg)
+    parent = ParentCfg({
+        "filtering": {"area_um min": 1.0, "area_um max": 2.0,
+                      "polygon filters": [1], "enable filters": True,
+                      "hierarchy parent": "none"},
+        "setup": {"channel width": 20.0},
+        "user": {"pair": (1, 2), "nested": {"t": (3.5,)}},
+    })
+    g = {"Configuration": configuration, "copy": Namespace(
+        "copy", deepcopy=_copy.deepcopy, copy=_copy.copy),
+        "json": Namespace("json", loads=json.loads, dumps=json.dumps)}
+    me = Namespace("self", hparent=Namespace(
+        "hparent", config=parent, identifier="parent-id"))
+    problems = []
+    try:
+        interp.steps = 0
+        Func(cc, g, interp)(me)
+    except ModelRaise as e:
+        problems.append(f"raises {e.name}")
+    if not problems:
+        if len(seen) != 1 or not isinstance(seen[0], dict):
+            problems.append("does not build the child Configuration from a "
+                            "mapping")
+        else:
+            c = seen[0]
+            pair = c.get("user", {}).get("pair")
+            if not isinstance(pair, tuple) or pair != (1, 2):
+                problems.append(
+                    f"[user] 'pair' = (1, 2) of the parent arrives as "
+                    f"{pair!r} in the child: the configuration went through "
+                    "a text / JSON form (types of user metadata are lost)")
+            filt = c.get("filtering", {})
+            if any(k.endswith((" min", " max")) for k in filt) or \
+                    "polygon filters" in filt:
+                problems.append("the parent's filters are inherited")
+            if filt.get("hierarchy parent") != "parent-id":
+                problems.append("hierarchy parent not set")
+            if parent["filtering"].get("area_um min") != 1.0 or parent[
+                    "filtering"]["hierarchy parent"] != "none":
+                problems.append("the parent's own configuration is "
+                                "modified")
+    ctx.ob("R11.4", not problems, "the hierarchy child receives a "
+           "type-preserving copy of the parent's configuration (filters "
+           "stripped, parent untouched)" if not problems else
+           "RTDC_Hierarchy._create_config: " + "; ".join(problems), node=cc,
+           key=f"{HIER}::RTDC_Hierarchy._create_config::types preserved")
+    # (2) whole package: no Configuration is built from a text form
+    n = 0
+    for rel in repo.files("dclab/"):
+        src = repo.src(rel)
+        if "Configuration(" not in src or not any(
+                t in src for t in TEXT_FORMS + ("json.loads",)):
+            continue
+        for q, f in repo.all_functions(rel):
+            for c in {id(x): x for x in find_calls(
+                    f, name="Configuration") + find_calls(
+                    f, attr="Configuration")}.values():
+                arg = kwarg(c, "cfg", 1)
+                if arg is None:
+                    continue
+                n += 1
+                exprs = [arg]
+                if isinstance(arg, ast.Name):
+                    exprs += [a.value for a in walk(f) if isinstance(
+                        a, ast.Assign) and any(isinstance(t, ast.Name)
+                                               and t.id == arg.id
+                                               for t in a.targets)]
+                bad = [x for e in exprs for x in ast.walk(e)
+                       if isinstance(x, ast.Call) and (
+                           last_attr(x) in TEXT_FORMS or call_name(x) in (
+                               "json.loads", "json.dumps"))]
+                ctx.ob("R11.4", not bad, "Configuration built from typed "
+                       "values" if not bad else
+                       f"Configuration built from `{short(bad[0], 40)}`: a "
+                       "text / JSON form does not keep the value types",
+                       node=c, label=f"typed source {short(c, 40)}")
+    ctx.stat("R11.4 Configuration(cfg=...) sites next to text forms", n)
+
+
 def _ancestors(n):
     p = getattr(n, "parent", None)
     while p is not None:
@@ -1874,7 +2131,7 @@ def run(ctx):
         raise AnalysisError(f"{MP}: func_types vanished")
     for fn in ("config_key_exists", "get_config_value_func",
                "get_config_value_type"):
-        if not isinstance(getattr(ml, fn, None), Func):
+        if not callable(getattr(ml, fn, None)):
             raise AnalysisError(f"{ML}: {fn} vanished")
     setitem, verify, bound_k = _guard("model", build_config_model, repo,
                                       mc, ml)
@@ -1883,6 +2140,7 @@ def run(ctx):
     _guard("R11.3", r113, ctx, repo, mp, mc, setitem, verify, bound_k)
     _guard("R11.4", r114, ctx, repo, setitem, mc, ml)
     _guard("R11.4", r114_rectify, ctx, repo)
+    _guard("R11.4", r114_copies, ctx, repo)
     _guard("R11.5", r115, ctx, repo, mp, mc, ml, storable)
     ctx.model = (mp, mc, ml)
     ctx.evals = ctx.stats.pop("_evals")
@@ -2559,4 +2817,63 @@ TWINS = list(TWINS) + [
       ("            super(ConfigurationDict, self).__setitem__(key, value)\n",
        "            super(ConfigurationDict, self).__setitem__(key, value)\n"
        "            self.revision += 1\n")]),
+]
+
+# round-4 seeded changes
+MUTANTS = list(MUTANTS) + [
+    ("pattern keys memoised in a module-level dict", ML,
+     [("def config_key_exists(section, key):",
+       "_online_filter_keys = {}\n\n\ndef config_key_exists(section, key):"),
+      ('    elif section == "online_filter":\n        if (key.count(",")',
+       '    elif section == "online_filter":\n'
+       '        if key in _online_filter_keys:\n'
+       '            return _online_filter_keys[key]\n'
+       '        if (key.count(",")', 0),
+      ("            valid = feat_logic.scalar_feature_exists(feat)\n"
+       "    return valid",
+       "            valid = feat_logic.scalar_feature_exists(feat)\n"
+       "        _online_filter_keys[key] = valid\n    return valid")],
+     "R11.2"),
+    ("key predicate memoised with lru_cache", ML,
+     [("import numbers\n", "import functools\nimport numbers\n"),
+      ("def config_key_exists(section, key):",
+       "@functools.lru_cache(maxsize=None)\n"
+       "def config_key_exists(section, key):")], "R11.2"),
+    ("hierarchy child configuration through as_dict()", HIER,
+     ("        cfg = self.hparent.config.copy()",
+      "        cfg = self.hparent.config.as_dict()"), "R11.4"),
+    ("hierarchy child shares the parent's configuration", HIER,
+     ("        cfg = self.hparent.config.copy()",
+      "        cfg = self.hparent.config"), "R11.4"),
+    ("export fills the raw dict of a ConfigurationDict", EXP,
+     [("from .feat_basin import get_basin_classes\n",
+       "from .config import ConfigurationDict\n"
+       "from .feat_basin import get_basin_classes\n"),
+      ("                meta[sec] = ds.config[sec].copy()",
+       "                meta[sec] = ConfigurationDict(section=sec)\n"
+       "                meta[sec].data.update(ds.config[sec])")], "R11"),
+    ("writer trusts section-aware dictionaries", WR,
+     [("        for sec in meta:\n            for ck in meta[sec]:\n"
+       "                idk = f\"{sec}:{ck}\"",
+       "        for sec in meta:\n"
+       "            converted = getattr(meta[sec], \"section\", None) == "
+       "sec\n            for ck in meta[sec]:\n"
+       "                idk = f\"{sec}:{ck}\""),
+      ("                if sec == \"user\":\n"
+       "                    # store user-defined metadata as-is",
+       "                if sec == \"user\" or converted:\n"
+       "                    # store user-defined metadata as-is")],
+     "R11.4"),
+]
+TWINS = list(TWINS) + [
+    ("hierarchy child configuration through deepcopy", HIER,
+     [("        cfg = self.hparent.config.copy()",
+       "        cfg = copy.deepcopy(self.hparent.config.copy())"),
+      ("import numpy as np\n", "import copy\n\nimport numpy as np\n")]),
+    ("key predicate with a local (per call) cache dict", ML,
+     ('    valid = False\n    if section == "user":\n'
+      '        if isinstance(key, str) and key.strip():  # sanity check',
+      '    valid = False\n    seen = {}\n    seen[key] = section\n'
+      '    if section == "user":\n'
+      '        if isinstance(key, str) and key.strip():  # sanity check')),
 ]
